@@ -76,6 +76,11 @@ pub fn f32_neg_inf_const() -> (r: f32) ensures r == f32_neg_inf_spec() { f32::NE
 pub fn reject() ensures false { panic!() }
 #[verifier::external_body]
 pub fn must_not_reject() requires false { panic!() }
+// the same in expression position (`else { panic!(..) }`, `_ => panic!(..)`)
+#[verifier::external_body]
+pub fn reject_v<T>() -> (r: T) ensures false { panic!() }
+#[verifier::external_body]
+pub fn must_not_reject_v<T>() -> (r: T) requires false { panic!() }
 
 // shape predicates
 pub open spec fn rect2(x: Seq<Vec<f32>>, h: int, w: int) -> bool {
